@@ -18,7 +18,7 @@ EXPLANATION = (
     "the cap by the very Irr that is returned. C13.c (index spaces): Schedule is built on ClockStruct.time_span and read "
     "at the time-step counter; SMT is read at int(growth_stage)-1 and growth_stage is set to 1 on the first day of a "
     "season before it is used. C13.d: each strategy's parameter is read only inside that strategy's branch. C13.e: the daily schedule is aligned with the simulation days by label; a day offset used as an array position "
-    "must be checked against 0 and the length (negative offsets wrap). C13.f: the interval day test is (dap - 1) % interval == 0 (normal form). NOT decided: "
+    "must be checked against 0 and the length (negative offsets wrap). C13.f: the interval day test is (dap - 1) % interval == 0 (normal form). C13.g: the net-irrigation refill uses each layer's own threshold (= C04.e). NOT decided: "
     "the ((dap-1) % k), the threshold comparison and the refill amount (numeric).")
 
 
@@ -330,6 +330,10 @@ def run(chk, prog, tier):
     chk.assume("A-1")
     rule_e(chk, prog)
     rule_f(chk, prog)
+    # C13.g: net-irrigation mode reports a non-negative requirement - structural half: each compartment is refilled towards its own layer's
+    # threshold (rule C03.d restricted to transpiration)
+    from .c03 import rule_d as own_thresholds
+    own_thresholds(chk, prog, rule="C13.g", only={"transpiration"}, floor=1)
     chk.exhaustive = True
 
 
